@@ -79,6 +79,8 @@ def matrix_jobs(seed: int, start: int = 0, namesets=(0, 1, 2, 3), classes=("ih5"
                         tid += 1
                         sc = situation_script(sit, "$main")
                         sc.append({"op": "open", "mode": mode, "rname": "$main", "bylist": bylist})
+                        if bylist:      # a merge right after opening, in every situation and mode
+                            sc.append({"op": "merge", "target": "merged1"})
                         sc += [{"op": "write"}, {"op": "commit"}, {"op": "discard"}, {"op": "close", "commit": True},
                                {"op": "open", "mode": "r", "rname": "$main", "bylist": not bylist},
                                {"op": "close", "commit": True}]
